@@ -122,7 +122,7 @@ def r2(ctx):
 
 def r3(ctx):
     ctx.rule('C19.R3', 'AttributedItem::dumpString writes a text unquoted only if it contains neither the field separator nor '
-             'a quote at its start/end, wraps it in quotes otherwise and doubles every embedded quote', minimum=2)
+             'a quote at its start/end, wraps it in quotes otherwise and doubles every embedded quote', minimum=3)
     fb = ctx.fb
     fn = fb.fn('ebusd::AttributedItem::dumpString')
     ctx.touch(fn)
@@ -134,6 +134,18 @@ def r3(ctx):
         atoms = set((a[0], a[1]) for a in fn.atoms(p))
         ok = any('%s.find_first_of(#44' % fn.P(1) in k and '== #18446744073709551615)' in k and pol for k, pol in atoms)
     ctx.ob('C19.R3', fn, plain[0] if plain else fn.body, ok, 'unquoted output', 'only without field separator: %s' % ok)
+    # ... and only if the first quote character is neither the first nor the last character (the reader opens quoted text
+    # at a quote directly behind a separator)
+    qv = fn.local_where(lambda k, r: k.startswith('%s.find_first_of(#34' % fn.P(1)) or k.startswith('%s.find(#34' % fn.P(1)))
+    if plain and len(qv) == 1:
+        q = qv[0]
+        none = ('(%s == #18446744073709551615)' % q, True)
+        ok_first = fn.needs_one_of(plain[0], [none, ('(%s <= #0)' % q, False), ('(%s == #0)' % q, False), ('(%s < #1)' % q, False)])
+        ok_last = fn.needs_one_of(plain[0], [none, ('(%s < (%s.length() - #1))' % (q, fn.P(1)), True), ('(%s < (%s.size() - #1))' % (q, fn.P(1)), True)])
+        ctx.ob('C19.R3', fn, plain[0], ok_first and ok_last, 'unquoted output with an embedded quote',
+               'first quote not at the start: %s, not at the end: %s' % (ok_first, ok_last))
+    else:
+        raise AnalysisBroken('C19.R3: position of the first quote in dumpString not recognised')
     dbl = [nid for nid, v in fn.nodes.items() if v['k'] == 'CXXOperatorCallExpr' and v.get('op') == '<<' and v.get('args') and
            fn.val(v['args'][1]) == 34 and fn.nodes.get(fn.strip(v['args'][0]), {}).get('k') == 'CXXOperatorCallExpr' and
            fn.val(fn.nodes[fn.strip(v['args'][0])]['args'][1]) == 34]
@@ -302,9 +314,35 @@ def r5(ctx):
                'decimal base set before every number written by it or its callees (%d functions summarised)' % len(cand))
 
 
+def r6(ctx):
+    ctx.rule('C19.R6', 'a type derived from an already derived type keeps the registered base type: every NumberDataType '
+             'constructed in a derive() overload receives (m_baseType ? m_baseType : this) as its base type - the definition '
+             'dump writes the divisor relative to the base type, so a chain of derivations (template with divisor used '
+             'with a further divisor) is dumped as the product', minimum=3)
+    fb = ctx.fb
+    n = 0
+    for fn in fb.fns('ebusd::NumberDataType::derive'):
+        ctx.touch(fn)
+        for x in fn.all('CXXNewExpr'):
+            if 'NumberDataType' not in fn.nodes[x].get('newt', ''):
+                continue
+            init = fn.nodes[x].get('init')
+            args = fn.nodes.get(init, {}).get('args', []) if init is not None else []
+            if not args:
+                continue
+            n += 1
+            k = fn.key(args[-1])
+            ok = k in ('(this.m_baseType ? this.m_baseType : this)', '((this.m_baseType != #0) ? this.m_baseType : this)',
+                       '((this.m_baseType == #0) ? this : this.m_baseType)')
+            ctx.ob('C19.R6', fn, x, ok, 'base type of a derived number type', 'passes %s' % k)
+    if n < 3:
+        raise AnalysisBroken('C19.R6: only %d constructions found in NumberDataType::derive' % n)
+
+
 def run(ctx):
     r1(ctx)
     r2(ctx)
     r3(ctx)
     r4(ctx)
     r5(ctx)
+    r6(ctx)
